@@ -1,6 +1,8 @@
 import SqlObjVerif.Lemmas.FailChainD
 import SqlObjVerif.Lemmas.FailOpX
 import SqlObjVerif.Lemmas.FailInhX
+import SqlObjVerif.Lemmas.FailXSetExWit
+import SqlObjVerif.Lemmas.FailDestroyXWit
 /-!
 # C06 — a write that raises changes nothing
 
